@@ -1407,7 +1407,7 @@ class RecurrencePlot(Cached):
         #  Get current recurrence matrix
         R = self.recurrence_matrix()
         #  Get number of neighbors for each state vector
-        nR = to_cy(R.sum(axis=0), NODE)
+        nR = to_cy(R.sum(axis=1), NODE)
 
         _twins_r(min_dist, N, R, nR, twins)
         return twins
